@@ -173,6 +173,7 @@ def run(ctx: Ctx) -> None:
                 ctx.mismatch("env bookkeeping: implementation and model differ", {"R": m[0], "input": m[1], "history": m[2], "impl": a[:500], "model": b[:500]})
         from . import pipeline
         pipeline.tie_full(ctx, drv, 3000 if quick else 80000, ref=True)      # the reference rule itself, end to end (driver `fullparser`)
+        pipeline.tie_full(ctx, drv, 1500 if quick else 40000, table=True)     # all eleven block rules, recorded env entries compared (tParse_first_wins is about this model)
     finally:
         drv.close()
     # ---- label matching and reference form == inline form
